@@ -28,6 +28,8 @@ type StreamNet struct {
 	OnWrite func(conn int, dir string, off int, b []byte)
 	// OnDial is called with each new connection pair.
 	OnDial func(conn int, client, server *StreamConn)
+	// OnClose is called when an end of a connection is closed by its owner (not under any lock).
+	OnClose func(conn int, clientSide bool)
 }
 
 // NewStreamNet creates an empty network.
@@ -76,11 +78,11 @@ type StreamConn struct {
 
 // StreamListener accepts connections.
 type StreamListener struct {
-	net    *StreamNet
-	addr   *net.TCPAddr
-	ch     chan *StreamConn
-	done   chan struct{}
-	once   sync.Once
+	net  *StreamNet
+	addr *net.TCPAddr
+	ch   chan *StreamConn
+	done chan struct{}
+	once sync.Once
 }
 
 func tcpAddr(s string) *net.TCPAddr {
@@ -309,6 +311,9 @@ func (c *StreamConn) Close() error {
 	close(c.dlCh)
 	c.dlCh = make(chan struct{})
 	c.mu.Unlock()
+	if c.net != nil && c.net.OnClose != nil {
+		c.net.OnClose(c.id, c.wdir == "C2S")
+	}
 	c.w.mu.Lock()
 	c.w.wclosed = true
 	kick(c.w.rwake)
